@@ -7,6 +7,7 @@ Environment:
   PV_TRANSCRIPT=file     append every command line and every response (NDJSON: seq, dir, text, note)
   PV_MODEL_SEED=n        diversify models: a satisfiable query is first retried with random value constraints
   PV_CORE_MODE=solver|full|minimal|superset   which legal answer get-unsat-assumptions gives
+  PV_HEARTBEAT=file      touched after every answer (a supervisor's liveness signal)
   PV_COUNT_FILE=file     persistent counter of response-bearing commands (a run may restart the solver)
   PV_FAULT_AT=n PV_FAULT_KIND=error|unknown|empty|truncate|exit|exit_status|garbage PV_FAULT_LEN=L
                          misbehave at the n-th response-bearing command
@@ -71,6 +72,7 @@ class Proxy:
         self.scopes = [0]         # number of consts declared per open scope
         self.last_assumps = None  # text items of the last check-sat-assuming
         # positions of response-bearing commands are counted across solver restarts within one run
+        self.heartbeat = os.environ.get("PV_HEARTBEAT")
         self.count_file = os.environ.get("PV_COUNT_FILE")
         self.nresp = 0
         if self.count_file and os.path.exists(self.count_file):
@@ -107,6 +109,12 @@ class Proxy:
         self.log("<", text, note)
         sys.stdout.write(text)
         sys.stdout.flush()
+        if self.heartbeat:
+            # a supervisor tells a slow run (answers keep arriving) from a stuck one by this file's modification time
+            try:
+                os.utime(self.heartbeat, None)
+            except OSError:
+                pass
 
     def extra_constraints(self):
         picks = self.rnd.sample(self.consts, min(len(self.consts), self.rnd.randint(1, 3)))
